@@ -346,11 +346,33 @@ theorem owner_dyn_conv (env : Env) (pre rest : List Field) (f : Field) (hf : f.k
 
 /-! ### The loop invariant of `applyFields` -/
 
+/-- If a spec maps a value other than `MISSING_VALUE` to `MISSING_VALUE` (only a spec frozen without a
+default does), it maps its own default to `MISSING_VALUE` as well. -/
+def MissingOK (env : Env) (p : Bool) (s : Spec) : Prop :=
+  ∀ x, apply env s p x = .ok .missing → x.isMissing = false → apply env s p s.flags.default = .ok .missing
+
+theorem valueOrDefault_isMissing (acc : List (String × Val)) (k : String) (d : Val)
+    (h : (valueOrDefault acc k d).isMissing = true) : valueOrDefault acc k d = d := by
+  unfold valueOrDefault at h ⊢
+  cases hl : lookup acc k with
+  | none => rfl
+  | some x =>
+    simp only [hl] at h ⊢
+    by_cases hx : x.isMissing = true
+    · simp [hx]
+    · simp only [hx] at h; exact absurd h hx
+
+theorem isMissing_eq (v : Val) (h : v.isMissing = true) : v = .missing := by
+  cases v <;> simp [Val.isMissing] at h
+  rfl
+
 def Good (env : Env) (p : Bool) (all pre : List Field) (acc : List (String × Val)) : Prop :=
   (acc.map (·.1)).Nodup ∧
   (∀ kv ∈ acc, (getField env all kv.1).isSome = true) ∧
   (∀ kv ∈ acc, ∀ f, getField env all kv.1 = some f → f ∈ pre → apply env f.value p kv.2 = .ok kv.2) ∧
-  (∀ k ∈ constKeys pre, (lookup acc k).isSome = true)
+  (∀ k ∈ constKeys pre, (lookup acc k).isSome = true) ∧
+  ((∀ f ∈ all, MissingOK env p f.value) → ∀ kv ∈ acc, kv.2.isMissing = true → ∀ f, getField env all kv.1 = some f →
+    f ∈ pre → apply env f.value p f.value.flags.default = .ok .missing)
 
 theorem mem_keys_of_mem {acc : List (String × Val)} {kv : String × Val} (h : kv ∈ acc) : kv.1 ∈ acc.map (·.1) :=
   List.mem_map_of_mem h
@@ -373,7 +395,7 @@ theorem applyFields_good (env : Env) (p : Bool) (all : List Field)
   | cons f rest ih =>
     intro pre acc out hall h hg
     obtain ⟨ks, spec⟩ := f
-    obtain ⟨g1, g2, g3, g4⟩ := hg
+    obtain ⟨g1, g2, g3, g4, g5⟩ := hg
     rw [applyFields] at h
     simp only [bind, Except.bind] at h
     cases hm : (fieldKeys env (constKeys all) (nonConstKeySpecs pre) ks acc).mapM
@@ -422,7 +444,7 @@ theorem applyFields_good (env : Env) (p : Bool) (all : List Field)
         cases ks <;> simp [KeySpec.isConst]
       have hall' : all = (pre ++ [Field.mk ks spec]) ++ rest := by
         rw [hall]; simp
-      refine ih (pre ++ [Field.mk ks spec]) _ out hall' (by rw [hpre']; exact h) ⟨?_, ?_, ?_, ?_⟩
+      refine ih (pre ++ [Field.mk ks spec]) _ out hall' (by rw [hpre']; exact h) ⟨?_, ?_, ?_, ?_, ?_⟩
       · exact nodup_setKeys _ _ g1
       · intro kv hkv
         rcases mem_setKeys _ _ g1 kv hkv with hk | ⟨hk, _⟩
@@ -461,6 +483,30 @@ theorem applyFields_good (env : Env) (p : Bool) (all : List Field)
             rw [hz2]
             simp [fieldKeys]
           | strKey r => simp [Field.key] at hk
+      · intro hM kv hkv hmiss f' hf' hmem
+        rcases mem_setKeys _ _ g1 kv hkv with hk | ⟨hk, hnk⟩
+        · have hin : kv.1 ∈ fieldKeys env (constKeys all) (nonConstKeySpecs pre) ks acc := by
+            rw [← hz2]; exact List.mem_map_of_mem hk
+          rw [hown _ hin] at hf'
+          injection hf' with hf'
+          subst hf'
+          have hap := hz1 kv hk
+          rw [isMissing_eq _ hmiss] at hap
+          simp only [Field.value]
+          by_cases hx : (valueOrDefault acc kv.1 spec.flags.default).isMissing = true
+          · rw [valueOrDefault_isMissing _ _ _ hx] at hap; exact hap
+          · have := hM (Field.mk ks spec) (by rw [hall]; simp)
+            simp only [Field.value] at this
+            exact this _ hap (by simpa using hx)
+        · simp only [List.mem_append, List.mem_singleton] at hmem
+          by_cases hin : f' ∈ pre
+          · exact g5 hM kv hk hmiss f' hf' hin
+          · rcases hmem with hmem | hmem
+            · exact absurd hmem hin
+            · subst hmem
+              have := hconv hin kv.1 (mem_keys_of_mem hk) hf'
+              rw [← hz2] at this
+              exact absurd this hnk
 
 /-- `Schema.apply` yields a conforming dict: only declared keys, every value a fixed point of its
 field's spec, every const key present — for every schema with distinct keys whose field specs have
@@ -475,7 +521,7 @@ theorem schemaApply_conforms (env : Env) (p : Bool) (fields : List Field)
   · rename_i hu
     have hu' : unmatchedKeys env fields kvs = [] := by simpa using hu
     have hstart : Good env p fields [] kvs := by
-      refine ⟨hnd, ?_, ?_, ?_⟩
+      refine ⟨hnd, ?_, ?_, ?_, ?_⟩
       · intro kv hkv
         have hk : kv.1 ∉ unmatchedKeys env fields kvs := by rw [hu']; simp
         simp only [unmatchedKeys, List.mem_filter, not_and, Bool.and_eq_true, Bool.not_eq_true'] at hk
@@ -500,7 +546,8 @@ theorem schemaApply_conforms (env : Env) (p : Bool) (fields : List Field)
             exact absurd hP (by simpa using hf g hg)
       · intro kv _ f _ hf; cases hf
       · intro k hk; simp [constKeys] at hk
-    obtain ⟨_, g2, g3, g4⟩ := applyFields_good env p fields hd hI fields [] kvs out (by simp) h hstart
+      · intro _ kv _ _ f _ hf; cases hf
+    obtain ⟨_, g2, g3, g4, _⟩ := applyFields_good env p fields hd hI fields [] kvs out (by simp) h hstart
     refine ⟨?_, g4⟩
     intro kv hkv
     cases hf : getField env fields kv.1 with
@@ -692,5 +739,59 @@ theorem schemaApply_fixed (env : Env) (p : Bool) (fields : List Field) (kvs : Li
     exact ⟨f, List.mem_of_find?_eq_some hf, List.find?_some hf⟩
   simp only [hu, List.isEmpty_nil, Bool.not_true, Bool.false_eq_true, if_false]
   exact applyFields_fixed env p fields kvs hd hc hs fields [] (by simp)
+
+
+/-- The output of `Schema.apply` has no stale `MISSING_VALUE`. -/
+theorem schemaApply_nostale (env : Env) (p : Bool) (fields : List Field)
+    (hd : distinctKeys (fieldKeySpecs fields) = true) (hI : ∀ f ∈ fields, Idem env p f.value)
+    (hM : ∀ f ∈ fields, MissingOK env p f.value)
+    (kvs out : List (String × Val)) (hnd : (kvs.map (·.1)).Nodup)
+    (h : schemaApply env fields p kvs = .ok out) : NoStaleMissing env p ⟨fields, out⟩ := by
+  unfold schemaApply at h
+  split at h
+  · cases h
+  · have hstart : Good env p fields [] kvs := by
+      refine ⟨hnd, ?_, ?_, ?_, ?_⟩
+      · intro kv hkv
+        -- (the same argument as in `schemaApply_conforms`)
+        rename_i hu
+        have hu' : unmatchedKeys env fields kvs = [] := by simpa using hu
+        have hk : kv.1 ∉ unmatchedKeys env fields kvs := by rw [hu']; simp
+        simp only [unmatchedKeys, List.mem_filter, not_and, Bool.and_eq_true, Bool.not_eq_true'] at hk
+        have := hk (List.mem_map_of_mem hkv)
+        rw [getField_eq]
+        by_cases hc : kv.1 ∈ constKeys fields
+        · have := find_const_some fields kv.1 hc
+          cases hf : fields.find? (isConstOf kv.1) with
+          | some g => rfl
+          | none => simp [hf] at this
+        · rw [find_const_none _ _ hc]
+          simp only []
+          have h2 := this (by simpa using hc)
+          rw [any_nonconst] at h2
+          simp only [Bool.not_eq_false] at h2
+          rw [List.any_eq_true] at h2
+          obtain ⟨g, hg, hP⟩ := h2
+          cases hf : fields.find? (isDynOf env kv.1) with
+          | some g' => rfl
+          | none =>
+            rw [List.find?_eq_none] at hf
+            exact absurd hP (by simpa using hf g hg)
+      · intro kv _ f _ hf; cases hf
+      · intro k hk; simp [constKeys] at hk
+      · intro _ kv _ _ f _ hf; cases hf
+    obtain ⟨_, _, _, _, g5⟩ := applyFields_good env p fields hd hI fields [] kvs out (by simp) h hstart
+    intro kv hkv hmiss f hf
+    exact g5 hM kv hkv hmiss f hf (getField_mem env fields kv.1 f hf)
+
+/-- `Schema.apply` is idempotent: applying it to its own output returns that output — const and
+dynamic keys, defaults, both `allow_partial` modes. -/
+theorem schemaApply_idem (env : Env) (p : Bool) (fields : List Field)
+    (hd : distinctKeys (fieldKeySpecs fields) = true) (hI : ∀ f ∈ fields, Idem env p f.value)
+    (hM : ∀ f ∈ fields, MissingOK env p f.value)
+    (kvs out : List (String × Val)) (hnd : (kvs.map (·.1)).Nodup)
+    (h : schemaApply env fields p kvs = .ok out) : schemaApply env fields p out = .ok out :=
+  schemaApply_fixed env p fields out hd (schemaApply_conforms env p fields hd hI kvs out hnd h)
+    (schemaApply_nostale env p fields hd hI hM kvs out hnd h)
 
 end Pg.C03
